@@ -1446,7 +1446,9 @@ class System:
             # the module inherits settings (like __docformat__) from it, 
             # what is documented must not depend on which of them happens to be reached first.
             parent = mod.parent
-            if isinstance(parent, Module) and parent.state is ProcessingState.UNPROCESSED:
+            if isinstance(parent, Module) and parent.state is ProcessingState.UNPROCESSED \
+                    and parent in self.unprocessed_modules:
+                # (the packages made up by --prepend-package have nothing to analyse)
                 self.getProcessedModule(parent.fullName())
         if mod.state is ProcessingState.UNPROCESSED:
             self.processModule(mod)
